@@ -21,6 +21,9 @@
 (*        stub -setup-> ready -open-> opened -chain-> chained -request-> done*)
 (*     or, with a commitment PENDING while the chain changes,               *)
 (*        .. chained -request1-> pending -chain2-> chained2 -request-> done *)
+(*     or, with TWO SUCCESSIVE commitments of one side (the first becomes    *)
+(*     current, the chain may move, the next number follows),                *)
+(*        .. pending -advance-> advanced -chain2-> chained2 -request-> done  *)
 (*     with the ghost `acc` (what was ACCEPTED, together with the rules it  *)
 (*     breaks) and the property as the invariant Inv_C05 over the ghost.    *)
 (*                                                                         *)
@@ -46,8 +49,16 @@
 (*  side  "holder" (validate_holder_commitment) | "cp" (sign counterparty)  *)
 (*  n     commitment number of the request (0 initial, 1 first update)      *)
 (*  pre   the initial commitments of the open step (used when n = 1)        *)
-(*  req   [feerate, to_b, to_c, off << [v, cltv] >>, rcv]  in BROADCASTER   *)
-(*         terms (holder commitment: broadcaster = holder)                  *)
+(*  req   [feerate, to_b, to_c, off << [v, cltv, h] >>, rcv]  in BROADCASTER *)
+(*         terms (holder commitment: broadcaster = holder); h is the        *)
+(*         IDENTITY OF THE PAYMENT HASH of the HTLC within its direction    *)
+(*         (a small number, the harness derives the 32 bytes from it and    *)
+(*         the direction): several HTLCs of one commitment may share it     *)
+(*         (parts of one payment), and an HTLC of the next commitment may   *)
+(*         have a hash that already occurs in the current one (the same     *)
+(*         HTLC carried over, or another part added).  No rule of the       *)
+(*         REFERENCE depends on h: every HTLC of an accepted commitment     *)
+(*         must satisfy every bound, however familiar its hash is.          *)
 (***************************************************************************)
 EXTENDS BigNat, FiniteSets, TLC
 
@@ -132,7 +143,9 @@ ViolatedSetup(pol, s) ==
   \cup (IF s.cdelay < pol.min_delay \/ s.cdelay > pol.max_delay THEN {"delay_holder"} ELSE {})
   \cup (IF s.hdelay < pol.min_delay \/ s.hdelay > pol.max_delay THEN {"delay_cp"} ELSE {})
 
-\* the commitment r with number n on side `side`; fresh: it is NEW, i.e. this very commitment
+\* the commitment r with number n on side `side`, judged ON ITS OWN CONTENTS at the chain view ch
+\* of the moment of the request (every HTLC, carried over or added, known hash or not, must be
+\* within the expiry range THEN); fresh: it is NEW, i.e. this very commitment
 \* (side, number, contents) was not accepted before - a commitment with different contents for
 \* a number that was already validated / signed IS new
 ViolatedCommit(pol, s, ch, side, n, r, fresh) ==
@@ -205,7 +218,10 @@ StepSetup(pol, s) ==
       \o Opt(s.cdelay < pol.min_delay \/ s.cdelay > pol.max_delay, "delay_holder")
       \o Opt(s.hdelay < pol.min_delay \/ s.hdelay > pol.max_delay, "delay_cp"), 1))
 
-\* per HTLC, in the order of the loop body: expiry checks, running sum, trim check
+\* per HTLC, in the order of the loop body: expiry checks, running sum, trim check.
+\* validate_expiry is applied to every HTLC every time it is encountered (the code's TODO(512)
+\* "one check when the HTLC is introduced, another every time" is not implemented): the model
+\* has no dependence on the current commitment's contents or on the payment hash here
 RECURSIVE HtlcLoop(_, _, _, _, _, _, _)
 HtlcLoop(hs, i, acc, dust, dustRule, pol, h) ==
   IF i > Len(hs) THEN [trig |-> << >>, sum |-> acc]
@@ -288,9 +304,10 @@ StepCommit(pol, s, ch, side, n, r, st, Sw) ==
 
 (***************************************************************************)
 (* 3. LIFE CYCLE OF ONE CASE AND THE PROPERTY                               *)
-(*    st = [ph, nh, nc, ch]; events "setup", "open", "chain", "request"      *)
+(*    st = [ph, nh, nc, nr, curH, nextH, curC, acc, ch]; events "setup",     *)
+(*    "open", "chain", "request1", "advance", "chain2", "request"            *)
 (***************************************************************************)
-Phases == {"stub", "ready", "opened", "chained", "pending", "chained2", "done", "dead"}
+Phases == {"stub", "ready", "opened", "chained", "pending", "advanced", "chained2", "done", "dead"}
 NoChain(h0) == [h0 |-> h0, blocks |-> 0, fund_at |-> 0, close_at |-> 0]
 InitSt(c) == [ph |-> "stub", nh |-> 0, nc |-> 0, nr |-> 0, curH |-> << >>, nextH |-> << >>, curC |-> << >>,
               acc |-> {}, ch |-> NoChain(c.chain.h0)]
@@ -300,8 +317,9 @@ InitSt(c) == [ph |-> "stub", nh |-> 0, nc |-> 0, nr |-> 0, curH |-> << >>, nextH
 \*   chain2 (the chain changes to c.seq.chain2: blocks added or disconnected) ; request (c.req, the
 \*          SAME number again), or, when c.seq.adv,
 \*   advance (the pending commitment becomes current: the holder revokes its predecessor /
-\*          the counterparty's revocation of the predecessor is validated) ; request (c.req, the
-\*          NEXT number n; request1 had number n - 1)
+\*          the counterparty's revocation of the predecessor is validated) ; chain2 (the chain
+\*          moves to c.seq.chain2 - possibly the same chain - while the first commitment is
+\*          current) ; request (c.req, the NEXT number n; request1 had number n - 1)
 NeedsOpen(c) == c.n > 0 \/ c.kind = "seq"
 N1(c) == IF c.seq.adv THEN c.n - 1 ELSE c.n            \* the number of request1
 \* the event enabled in a state of case c ("none": the behaviour is over)
@@ -311,6 +329,7 @@ EventOf(c, st) ==
     [] st.ph = "opened" -> "chain"
     [] st.ph = "chained" -> IF c.kind = "seq" THEN "request1" ELSE "request"
     [] st.ph = "pending" -> IF c.seq.adv THEN "advance" ELSE "chain2"
+    [] st.ph = "advanced" -> "chain2"
     [] st.ph = "chained2" -> "request"
     [] OTHER -> "none"
 
@@ -359,8 +378,8 @@ After(c, st, ev, ok) ==
     [] ev = "advance" ->
          IF ~ok THEN [st EXCEPT !.ph = "dead"]
          ELSE IF c.side = "holder"
-           THEN [st EXCEPT !.ph = "chained2", !.nh = @ + 1, !.curH = st.nextH, !.nextH = << >>]
-           ELSE [st EXCEPT !.ph = "chained2", !.nr = @ + 1]
+           THEN [st EXCEPT !.ph = "advanced", !.nh = @ + 1, !.curH = st.nextH, !.nextH = << >>]
+           ELSE [st EXCEPT !.ph = "advanced", !.nr = @ + 1]
     [] ev = "request" -> [(IF ok THEN Accepted(st, c.side, c.n, c.req) ELSE st) EXCEPT !.ph = "done"]
 
 \* the rules broken by what the event asks to accept (evaluated on the inputs and on what was
